@@ -165,10 +165,10 @@ let gen_class_workflow () : workflow =
   counter := 0;
   let irq = ASpec (UIrq, O, true, None, []) in
   let act () = let id = fresh () in
-    Act (id, None, irq, (if rnd 4 = 0 then rvars [3;4;7] 50 else []), (if rnd 3 = 0 then (let l = rnulls [1;3;4;5] 40 in if l = [] then [(nat_of_int 3, VNull)] else l) else []), None, [], [], []) in
+    Act (id, None, irq, (if rnd 4 = 0 then rvars [3;4;7;8] 50 else []), (if rnd 3 = 0 then (let l = rnulls [1;3;4;5;8] 40 in if l = [] then [(nat_of_int 3, VNull)] else l) else []), None, [], [], []) in
   let step () = let id = fresh () in
-    Step (id, None, None, (if rnd 4 = 0 then rvars [3;4;5;7] 40 else []), (if rnd 4 = 0 then rnulls [3;4;5;6] 40 else []), [], [], List.init (rnd 4) (fun _ -> act ()), [], []) in
-  { w_id = O; w_steps = List.init (if rnd 8 = 0 then 0 else 1 + rnd 3) (fun _ -> step ()); w_ins = rvars [1;3;4;5] 70; w_outs = rnulls [1;3;4;6] 60; w_setup = [] }
+    Step (id, None, None, (if rnd 4 = 0 then rvars [3;4;5;7;8] 40 else []), (if rnd 4 = 0 then rnulls [3;4;5;6;8] 40 else []), [], [], List.init (rnd 4) (fun _ -> act ()), [], []) in
+  { w_id = O; w_steps = List.init (if rnd 8 = 0 then 0 else 1 + rnd 3) (fun _ -> step ()); w_ins = rvars [1;3;4;5;8] 70; w_outs = rnulls [1;3;4;6;8] 60; w_setup = [] }
 let gen_workflow () : workflow =
   if !class_mode then gen_class_workflow () else begin
   counter := 0;
@@ -264,7 +264,7 @@ let gen_main n seed0 maxops out =
              else (nt + 3, (ANext, "next", [])) in
            let declared = if target < nt then List.map fst (tnode !e (nat_of_int target)).n_outputs else [] in
            let supply = rnd 5 <> 0 in
-           let extra = rvars [0;1;2;3;4;5;6;7] 25 in
+           let extra = if !class_mode then rvars [0;1;2;3;4;5;6;7;8] 30 else rvars [0;1;2;3;4;5;6;7] 25 in
            let decl_vals = if supply then List.map (fun k -> (k, vnum (10 + rnd 9))) declared else (match declared with [] -> [] | _ :: tl -> List.map (fun k -> (k, vnum (10 + rnd 9))) tl) in
            let optv = List.fold_left (fun acc (k, x) -> if List.mem_assoc k acc then acc else acc @ [(k, x)]) decl_vals extra in
            let o = aopts @ (match jvars optv with Json.Obj l -> l | _ -> []) in
